@@ -1,17 +1,15 @@
 #!/bin/bash
-# For each seeded change produced by a sub-agent: run the property's quick check against it.
-# usage: tools/eval_seeds.sh [ID ...]    results appended to /tmp/seed_eval.txt
+# For each seeded change under seeded/<ID>-mN/: run the property's check (default quick) against it.
+# usage: tools/eval_seeds.sh [tier] [seedid ...]    results appended to seeded/RESULTS.<tier>.txt
 cd "$(dirname "$0")/.."
-IDS=${@:-$(ls -d /tmp/seedwt/C?? | xargs -n1 basename)}
-for ID in $IDS; do
-  for d in /tmp/seedwt/$ID/out/m*.diff; do
-    [ -f "$d" ] || continue
-    n=$(basename $d .diff)
-    out=$(tools/trymut.sh $ID $d quick 2>&1)
-    if echo "$out" | grep -q "PATCH-FAILED"; then r="PATCH-FAILED"
-    elif echo "$out" | grep -q "VIOLATION property=$ID"; then r="CAUGHT  $(echo "$out" | grep '^# ' | head -1 | cut -c1-160)"
-    elif echo "$out" | grep -q "CHECK-"; then r="CHECK-BROKEN $(echo "$out" | grep CHECK- | head -1)"
-    else r="MISSED  $(echo "$out" | grep evaluations= | tail -1)"; fi
-    echo "$ID $n $r" | tee -a /tmp/seed_eval.txt
-  done
+TIER=${1:-quick}; shift
+IDS=${@:-$(ls -d seeded/C??-m? | xargs -n1 basename)}
+for S in $IDS; do
+  P=${S%%-*}
+  out=$(tools/trymut.sh $P seeded/$S/patch.diff $TIER 2>&1)
+  if echo "$out" | grep -q "PATCH-FAILED"; then r="PATCH-FAILED"
+  elif echo "$out" | grep -q "VIOLATION property=$P"; then r="CAUGHT  $(echo "$out" | grep '^# ' | head -1 | cut -c1-200)"
+  elif echo "$out" | grep -q "CHECK-"; then r="CHECK-BROKEN $(echo "$out" | grep CHECK- | head -1)"
+  else r="MISSED  $(echo "$out" | grep evaluations= | tail -1)"; fi
+  echo "$S $r" | tee -a seeded/RESULTS.$TIER.txt
 done
